@@ -92,6 +92,24 @@ class EEMSRead(Command):
         return result
 
 
+def unused_fill_value(data, mask, preferred):
+    """Returns `preferred` unless a valid cell holds that very number, in which case a number of the same type that no
+    valid cell holds is returned (the file marks missing cells by their value, so a valid cell must never equal it)."""
+
+    if data.dtype.kind not in "iuf":
+        return preferred
+
+    used = set(data[~mask].tolist())
+    if numpy.asarray(preferred).astype(data.dtype).item() not in used:  # (compared as it will be stored)
+        return preferred
+
+    is_integer = data.dtype.kind in "iu"
+    candidate = numpy.iinfo(data.dtype).max if is_integer else numpy.finfo(data.dtype).max
+    while candidate in used:
+        candidate = candidate - 1 if is_integer else numpy.nextafter(candidate, data.dtype.type(-numpy.inf))
+    return candidate
+
+
 class EEMSWrite(SameArrayShapeMixin, Command):
     """Writes one or more file"""
 
@@ -163,7 +181,9 @@ class EEMSWrite(SameArrayShapeMixin, Command):
                     command.result_name,
                     command.result.dtype.char,
                     dimensions,
-                    fill_value=command.result.fill_value,
+                    fill_value=unused_fill_value(
+                        numpy.ma.getdata(command.result), mask, command.result.fill_value
+                    ),
                     compression="zlib",
                     complevel=1,
                 )
